@@ -6,6 +6,7 @@ import math
 from vlib import Suite, zlist, coqlist, blit, opt
 
 ID = "C19"
+READY = True
 RULE = ("codec: parameter dictionaries generated from one PRNG (unicode incl. astral planes, separators, percent "
         "signs, typed-prefix look-alikes, awkward floats, big ints, nested lists/dicts); non-trivial = at least one "
         "parameter whose text needs quoting or a typed prefix; distinct by case hash.  reader: streams of 1-6 framed "
